@@ -140,6 +140,15 @@ IMPL("impl<'a> Writer<'a>", raw='''
         ensures old(self).appended(final(self), buf@, r)
     { unimplemented!() }
 
+    /// `io::Write::write` of a Cursor<&mut [u8]>: a SHORT write of what fits, never an error
+    #[verifier::external_body]
+    pub fn write(&mut self, buf: &[u8]) -> (r: io::Result<usize>)
+        requires old(self).wf()
+        ensures old(self).same_buffer(final(self)), r is Ok,
+            r->Ok_0 == crate::min2(buf@.len() as int, old(self).cap() - old(self).out().len()),
+            final(self).out() == old(self).out() + buf@.subrange(0, r->Ok_0 as int)
+    { unimplemented!() }
+
     // N4: one stub per distinct `write!` format string of the crate.
     /// write!(w, "{:0x?}\\r\\n", n)
     #[verifier::external_body]
